@@ -163,3 +163,16 @@ Theorem C06_call_parser_and_ir_agree_generated : forall bodies w callee t,
 Proof. exact call_parser_and_ir_agree_generated. Qed.
 Print Assumptions C06_callee_type_generated.
 Print Assumptions C06_call_parser_and_ir_agree_generated.
+
+(* ---- getelementptr on regenerated code: the Type() methods of the constant expression and the instruction ---- *)
+From LLIR Require Proofs.GepRefinement Proofs.GepIndexRefinement.
+Theorem C06_gep_expr_Type_generated : forall f elem src srckind ops,
+  GepIndexRefinement.call_from "constant" [] (S (S (S (S f)))) "constant.ExprGetElementPtr" "Type" (GepIndexRefinement.gep_expr_object elem src srckind ops) =
+  GepRefinement.expect (GepIndexRefinement.gep_expr_type elem src ops).
+Proof. exact GepIndexRefinement.generated_gep_expr_Type_method_is_model. Qed.
+Theorem C06_gep_inst_Type_generated : forall f elem src srckind ops, Forall GepIndexRefinement.well_named ops ->
+  GepIndexRefinement.call_from "ir" [] (S (S (S (S f)))) "ir.InstGetElementPtr" "Type" (GepIndexRefinement.gep_inst_object elem src srckind ops) =
+  GepRefinement.expect (GepIndexRefinement.gep_inst_type elem src ops).
+Proof. exact GepIndexRefinement.generated_gep_inst_Type_method_is_model. Qed.
+Print Assumptions C06_gep_expr_Type_generated.
+Print Assumptions C06_gep_inst_Type_generated.
